@@ -86,7 +86,7 @@ def tree_sexp(t):
 
 def frag_program(rng):
     """a program of the fragment for which compile-then-execute = source meaning is PROVED (props/C01.v, C01_var_programs):
-    declarations (at the top level and inside blocks, where they last until the block ends), assignments, expression statements, if/else, if and (counted, hence ending) condition loops with break / continue
+    declarations (at the top level and inside blocks, where they last until the block ends), assignments, expression statements, if/else, if and (counted, hence ending) condition loops and three-clause loops with break / continue
     nested up to three deep, over scalar expressions on integers, booleans, nil and strings; here it is rendered to source text and pushed through the real pipeline like every other program"""
     nvars = [0]
     kinds = []          # 'i' / 'b' / '?' per variable (what it was last given; a guide for the generator, not a type system)
@@ -187,6 +187,15 @@ def frag_program(rng):
             nvars[0] += 1
             kinds.append(t)
             return ["v%d := %s" % (nvars[0] - 1, e)]
+        if k == 4 and depth < 3 and rng.chance(1, 2):
+            # a three-clause loop: its own counter, visible in condition, post and body only
+            j = nvars[0]
+            nvars[0] += 1
+            kinds.append('c')
+            body = block(depth + 1, True)
+            kinds[j] = 'x'
+            return ["for v%d := %d; v%d %s %d; %s { %s }" % (j, rng.below(3), j, rng.choice(["<", "<=", "!="]), 3 + rng.below(2),
+                                                             rng.choice(["v%d++" % j, "v%d += 1" % j, "v%d = v%d + 1" % (j, j)]), body)]
         if k == 6 and depth < 3 and free_counters:
             j = free_counters.pop()
             body = block(depth + 1, True)
